@@ -193,7 +193,7 @@ def worker_main(argv):
             journal.flush()
         ctx.evaluations += 1
         try:
-            with deadline(soft):
+            with deadline(mod.case_deadline(case) if hasattr(mod, 'case_deadline') else soft):
                 mod.run_case(case, ctx)
         except CaseTimeout:
             ctx.timeouts.append(jsonable(case))
